@@ -11,7 +11,8 @@ Correspondence: (a) real dag.Walker inside testing/synctest bubbles (a deadlock 
 Oracle (no model): Walk returns; no Go runtime fatal error; no data race report; every selected node is
                in the completion map or was skipped below a failure; Load returns within the bound.
 """
-import itertools
+import concurrent.futures as cf
+import itertools, json, os, shutil
 from checks import _walker as W
 
 PROPERTY = "C04"
@@ -30,6 +31,7 @@ OBLIGATIONS = [
     "Grog.C04.terminates",
     "Grog.C04.run_length_bounded",
     "Grog.C04.can_always_finish",
+    "Grog.C04.failure_always_completes",
     "Grog.C04.completions_cover",
     "Grog.C04.walk_return_enabled",
     "Grog.C04.errchan_no_deadlock",
@@ -138,11 +140,171 @@ def run(ctx):
     # ---- (b) directory restore with missing blobs ------------------------------------------------
     from checks import _errchan
     _errchan.run(ctx)
+    # ---- (c) whole builds through the CLI under a wall bound: timeouts, lost blobs, alias fan-out -------
+    run_cli(ctx)
     if disagreements and len(ctx.violations) == viol_before:
         c, o, r = min(disagreements, key=lambda t: t[0]["n"])
         ctx.violation("a trace of the real walker is not a run of the model: " + str(r.get("why", r)),
                       {"kind": "correspondence", "correspondence": "in-package walker trace vs GrogModel.Walker.step", "case": strip(c), "impl": o,
                        "model": {k: v for k, v in r.items() if k not in ("phases", "snap")}, "n_disagreements": len(disagreements)}, found_input=False)
+
+
+# ---------------------------------------------------------------------------------------------------------
+# CLI scenarios: the whole `grog build` under a wall-clock bound
+# ---------------------------------------------------------------------------------------------------------
+WALL = 40      # seconds; the scenarios need 1-4 s on the unchanged tree
+
+
+def cli_timeout_case(ctx, idx, with_dependants, fail_fast, workers):
+    """a target that exceeds its own `timeout:` must end as failed: the build exits 1, names it, and does not wait for
+    (or run) its dependants"""
+    if with_dependants:
+        n, edges = 4, [[0, 1], [1, 2]]          # slow <- mid <- top, plus an independent target
+    else:
+        n, edges = 2, []
+    ws = W.CliWs(ctx, f"c04-to-{idx}", n, edges, kinds=["timeout"] + [None] * (n - 1), workers=workers)
+    b = ws.build(flags=("--fail-fast",) if fail_fast else (), timeout=WALL)
+    started = {m for k, m, _ in b["trace"] if k == "s"}
+    res = {"scenario": "target-timeout", "n": n, "edges": edges, "failFast": fail_fast, "workers": workers, "rc": b["rc"], "wall": round(b["wall"], 1),
+           "started": sorted(started), "failed_labels": W.failed_labels(b["out"]), "bad": []}
+    if b["rc"] == 124:
+        res["bad"].append(("build-hang:target-exceeded-its-timeout", f"grog build did not return within {WALL} s after a target exceeded its timeout "
+                           f"({'with' if with_dependants else 'without'} dependants, fail-fast={fail_fast})"))
+    elif b["rc"] == 0:
+        res["bad"].append(("timed-out-target-unresolved", "a target exceeded its timeout but the build exited 0 and did not report it as failed"))
+    elif b["rc"] != 1:
+        res["bad"].append(("build-crashed", f"exit status {b['rc']}: {b['out'][-300:]}"))
+    else:
+        if 0 not in res["failed_labels"]:
+            res["bad"].append(("timed-out-target-unresolved", f"the timed-out target is not reported as failed (reported: {res['failed_labels']})"))
+        if started & {1, 2} and with_dependants:
+            res["bad"].append(("executed-below-failure", f"dependants {sorted(started & {1, 2})} of the timed-out target ran"))
+    if res["bad"]:
+        res["out"] = b["out"][-800:]
+    ws.cleanup()
+    return res
+
+
+def cas_blobs(ws):
+    out = []
+    for root, _, files in os.walk(ws.root):
+        if os.path.basename(root) == "cas":
+            out += [os.path.join(root, f) for f in files]
+    return out
+
+
+def cli_lost_blob_case(ctx, idx, which, mode):
+    """build, lose a blob of a cached output (and the local outputs), rebuild: the restore fails, the target must be re-run
+    and the build must return 0 with the outputs back"""
+    n, edges = 3, [[0, 2], [1, 2]]              # t0: file output, t1: file + directory output (nested), t2 consumes both
+    ws = W.CliWs(ctx, f"c04-blob-{idx}", n, edges, workers=2, dir_outputs=(1,))
+    b1 = ws.build(timeout=WALL)
+    res = {"scenario": "lost-blob", "which": which, "mode": mode, "rc1": b1["rc"], "bad": []}
+    if b1["rc"] != 0:
+        res["bad"].append(("build-failed", f"cold build exited {b1['rc']}: {b1['out'][-300:]}"))
+        ws.cleanup()
+        return res
+    contents = {"file": b"t0\n", "dir-file": b"one1\n", "dir-nested-file": b"two1\n"}
+    removed = 0
+    for p in cas_blobs(ws):
+        data = open(p, "rb").read()
+        known = data in contents.values() or data == b"t1\n" or data.startswith(b"t0\nt1\n")
+        if which == "all" or (which in contents and data == contents[which]) or (which == "tree" and not known):
+            os.remove(p)
+            removed += 1
+    res["removed"] = removed
+    pkg = os.path.join(ws.ws, "pkg")
+    for f in os.listdir(pkg):
+        if f != "BUILD.json":
+            pth = os.path.join(pkg, f)
+            shutil.rmtree(pth) if os.path.isdir(pth) else os.remove(pth)
+    b2 = ws.build(flags=("--load-outputs=" + mode,), timeout=WALL)
+    res.update(rc2=b2["rc"], wall2=round(b2["wall"], 1), restarted=sorted({m for k, m, _ in b2["trace"] if k == "s"}))
+    if removed == 0:
+        res["bad"].append(("harness-no-blob-removed", f"no blob matched '{which}'"))
+    if b2["rc"] == 124:
+        res["bad"].append(("build-hang:unreadable-cache-entry", f"grog build did not return within {WALL} s when the {which} blob of a cached output was lost "
+                           f"(load_outputs={mode})"))
+    elif b2["rc"] != 0:
+        res["bad"].append(("rebuild-failed-after-lost-blob", f"rebuild exited {b2['rc']} after losing the {which} blob: {b2['out'][-400:]}"))
+    elif mode == "all":
+        exp = {"t0.out": "t0\n", "t1.out": "t1\n", "t2.out": "t0\nt1\nt2\n", "d1/one.txt": "one1\n", "d1/sub/two.txt": "two1\n"}
+        wrong = [f for f, c in exp.items() if not os.path.exists(os.path.join(pkg, f)) or open(os.path.join(pkg, f)).read() != c]
+        if wrong:
+            res["bad"].append(("outputs-not-restored-after-lost-blob", f"after the rebuild these outputs are missing or wrong: {wrong}"))
+    if res["bad"]:
+        res["out"] = b2["out"][-800:]
+    ws.cleanup()
+    return res
+
+
+def cli_alias_fanout_case(ctx, idx, width):
+    """hundreds of targets that become ready at the same instant behind one ALIAS, through the real Executor"""
+    d = ctx.scratch(f"c04-alias-{idx}")
+    ws_dir, root = os.path.join(d, "ws"), os.path.join(d, "root")
+    os.makedirs(os.path.join(ws_dir, "pkg"))
+    os.makedirs(root)
+    open(os.path.join(ws_dir, "grog.toml"), "w").write("num_workers = 8\n")
+    targets = [{"name": "base", "command": "echo base > base.out", "outputs": ["base.out"]}]
+    targets += [{"name": f"leaf{i}", "dependencies": [":stable"], "command": ""} for i in range(width)]
+    json.dump({"targets": targets, "aliases": [{"name": "stable", "actual": ":base"}]}, open(os.path.join(ws_dir, "pkg", "BUILD.json"), "w"))
+    import subprocess, time
+    env = dict(os.environ, GROG_ROOT=root, HOME=d, GROG_DISABLE_TEA="true")
+    env.pop("CI", None)
+    t0 = time.time()
+    try:
+        p = subprocess.run([ctx.grog_binary(), "build", "//..."], cwd=ws_dir, env=env, capture_output=True, text=True, timeout=WALL * 2)
+        rc, out = p.returncode, p.stdout + p.stderr
+    except subprocess.TimeoutExpired:
+        rc, out = 124, "TIMEOUT"
+    res = {"scenario": "alias-fanout", "width": width, "rc": rc, "wall": round(time.time() - t0, 1), "bad": []}
+    if rc == 124:
+        res["bad"].append(("build-hang:alias-fanout", f"grog build of {width} targets behind an alias did not return within {WALL * 2} s"))
+    elif rc != 0:
+        first = next((l for l in out.splitlines() if l.startswith(("fatal error:", "panic:"))), None)
+        if first:
+            res["bad"].append(("executor-runtime-crash:" + first.split(":", 1)[1].strip().replace(" ", "-")[:50],
+                               f"grog died with '{first}' building {width} targets that depend on an alias"))
+        else:
+            res["bad"].append(("build-failed", f"build of {width} targets behind an alias exited {rc}: {out[-300:]}"))
+    elif f"{width + 1} targets completed" not in out:
+        res["bad"].append(("selected-target-unresolved", f"not all {width + 1} targets completed: {out[-200:]}"))
+    if res["bad"]:
+        res["out"] = out[-1500:]
+    shutil.rmtree(d, ignore_errors=True)
+    return res
+
+
+def run_cli(ctx):
+    if ctx.grog_binary() is None:
+        return
+    quick = ctx.tier == "quick"
+    jobs = []
+    k = 0
+    for dep in (True, False):
+        for ff in (False, True):
+            jobs.append((cli_timeout_case, (k, dep, ff, 2)))
+            k += 1
+    blob_kinds = [("file", "all"), ("dir-nested-file", "all"), ("tree", "all"), ("file", "minimal"), ("dir-file", "minimal"), ("all", "all")]
+    if not quick:
+        blob_kinds = [(w, m) for w in ("file", "dir-file", "dir-nested-file", "tree", "all") for m in ("all", "minimal")]
+    for w, m in blob_kinds:
+        jobs.append((cli_lost_blob_case, (k, w, m)))
+        k += 1
+    for width in ((600, 600) if quick else (600, 600, 1500, 600, 600, 600)):
+        jobs.append((cli_alias_fanout_case, (k, width)))
+        k += 1
+    results = []
+    with cf.ThreadPoolExecutor(max_workers=4) as ex:
+        for f in [ex.submit(fn, ctx, *args) for fn, args in jobs]:
+            results.append(f.result())
+    for r in results:
+        for sig, msg in r["bad"]:
+            ctx.violation(msg, {"kind": "oracle", "oracle": "CLI build returns, resolves every target, does not crash", "scenario": r}, signature=sig)
+    ctx.coverage["cli_scenarios"] = {s: sum(1 for r in results if r["scenario"] == s) for s in ("target-timeout", "lost-blob", "alias-fanout")}
+    ctx.coverage["cli_max_wall_s"] = max([r.get("wall", 0) for r in results] + [r.get("wall2", 0) for r in results])
+    ctx.coverage["evaluations"] += len(results)
+    ctx.coverage["distinct_nontrivial"] += len(results)
 
 
 def strip(c):
